@@ -374,7 +374,7 @@ def montecarlo(prog, rep):
             smp = den[2][0]
         x2 = ("call", G("numpy.atleast_2d"), (("call", G("numpy.asarray_chkfinite"), (P("x"),), ()),), ())
         ev = ("sub", x2, ("tuple", (("slice", NONE, NONE, NONE), G("numpy.newaxis"), ("slice", NONE, NONE, NONE))))
-        want = ("call", ("attr", ("call", ("attr", CMP("<=", smp, ev), "all"), (), (("axis", ("const", -1)),)), "sum"), (), (("axis", ("const", -1)),))
+        want = ("call", G("numpy.sum"), (("call", G("numpy.all"), (CMP("<=", smp, ev),), (("axis", ("const", -1)),)),), (("axis", ("const", -1)),))
         ok = smp is not None and num == want and set(alts(smp)) == {P("sample"), ("attr", SELF, "sample")}
     rep.check(ok, "C16.mc", f"{q}:fraction", fn.where(rets[-1]), "sum over samples of all_d(sample_d <= x_d) / len(sample), sample = supplied or self.sample", why)
     sp = prog.func(f"{TM}.sample")
@@ -407,7 +407,7 @@ def montecarlo(prog, rep):
                 okc = len(smp) == 1 and smp[0][2][1:3] == (P("dim"), giv) and dict(smp[0][3]).get("random_state") == P("random_state")
                 if red == "cdf":
                     n_ = smp[0][2][0] if smp else None
-                    okv = okc and v == ("bin", "/", ("call", ("attr", CMP("<=", smp[0], val), "sum"), (), ()), n_)
+                    okv = okc and v == ("bin", "/", ("call", G("numpy.sum"), (CMP("<=", smp[0], val),), ()), n_)
                 else:
                     okv = okc and v == ("call", G("numpy.quantile"), (smp[0], val), ())
                 ok = okv and idx == i and base == ("call", G("numpy.empty_like"), (P(first),), ())
